@@ -46,9 +46,59 @@ fn trace_case(si: &gen::SchemaInfo, text: &str, out: &mut Out) {
     out.push(json!({"op": "trace", "src": text, "doc": enc::document(&doc), "impl": {"outcome": outcome, "lines": lines, "final": fin}}));
 }
 
+// ---------------------------------------------------------------- schema visitor (C15)
+struct SRec;
+use graphql_tools::ast::SchemaVisitor;
+use crate::intern::id;
+impl SchemaVisitor<Vec<String>> for SRec {
+    fn enter_document(&self, _: &s::Document, c: &mut Vec<String>) { c.push("+doc".into()) }
+    fn leave_document(&self, _: &s::Document, c: &mut Vec<String>) { c.push("-doc".into()) }
+    fn enter_schema_definition(&self, n: &s::SchemaDefinition, c: &mut Vec<String>) { c.push(format!("+{}", r_sdef(n))) }
+    fn leave_schema_definition(&self, n: &s::SchemaDefinition, c: &mut Vec<String>) { c.push(format!("-{}", r_sdef(n))) }
+    fn enter_directive_definition(&self, n: &s::DirectiveDefinition, c: &mut Vec<String>) { c.push(format!("+directive:{}", id(&n.name))) }
+    fn leave_directive_definition(&self, n: &s::DirectiveDefinition, c: &mut Vec<String>) { c.push(format!("-directive:{}", id(&n.name))) }
+    fn enter_type_definition(&self, n: &s::TypeDefinition, c: &mut Vec<String>) { c.push(format!("+type:{}", enc::r_type_def(n))) }
+    fn leave_type_definition(&self, n: &s::TypeDefinition, c: &mut Vec<String>) { c.push(format!("-type:{}", enc::r_type_def(n))) }
+    fn enter_interface_type(&self, n: &s::InterfaceType, c: &mut Vec<String>) { c.push(format!("+interface:{}", id(&n.name))) }
+    fn leave_interface_type(&self, n: &s::InterfaceType, c: &mut Vec<String>) { c.push(format!("-interface:{}", id(&n.name))) }
+    fn enter_interface_type_field(&self, n: &s::Field, t: &s::InterfaceType, c: &mut Vec<String>) { c.push(format!("+ifield:{}@{}", id(&n.name), id(&t.name))) }
+    fn leave_interface_type_field(&self, n: &s::Field, t: &s::InterfaceType, c: &mut Vec<String>) { c.push(format!("-ifield:{}@{}", id(&n.name), id(&t.name))) }
+    fn enter_object_type(&self, n: &s::ObjectType, c: &mut Vec<String>) { c.push(format!("+object:{}", id(&n.name))) }
+    fn leave_object_type(&self, n: &s::ObjectType, c: &mut Vec<String>) { c.push(format!("-object:{}", id(&n.name))) }
+    fn enter_object_type_field(&self, n: &s::Field, t: &s::ObjectType, c: &mut Vec<String>) { c.push(format!("+ofield:{}@{}", id(&n.name), id(&t.name))) }
+    fn leave_object_type_field(&self, n: &s::Field, t: &s::ObjectType, c: &mut Vec<String>) { c.push(format!("-ofield:{}@{}", id(&n.name), id(&t.name))) }
+    fn enter_input_object_type(&self, n: &s::InputObjectType, c: &mut Vec<String>) { c.push(format!("+input:{}", id(&n.name))) }
+    fn leave_input_object_type(&self, n: &s::InputObjectType, c: &mut Vec<String>) { c.push(format!("-input:{}", id(&n.name))) }
+    fn enter_input_object_type_field(&self, n: &s::InputValue, t: &s::InputObjectType, c: &mut Vec<String>) { c.push(format!("+infield:{}@{}", id(&n.name), id(&t.name))) }
+    fn leave_input_object_type_field(&self, n: &s::InputValue, t: &s::InputObjectType, c: &mut Vec<String>) { c.push(format!("-infield:{}@{}", id(&n.name), id(&t.name))) }
+    fn enter_union_type(&self, n: &s::UnionType, c: &mut Vec<String>) { c.push(format!("+union:{}", id(&n.name))) }
+    fn leave_union_type(&self, n: &s::UnionType, c: &mut Vec<String>) { c.push(format!("-union:{}", id(&n.name))) }
+    fn enter_scalar_type(&self, n: &s::ScalarType, c: &mut Vec<String>) { c.push(format!("+scalar:{}", id(&n.name))) }
+    fn leave_scalar_type(&self, n: &s::ScalarType, c: &mut Vec<String>) { c.push(format!("-scalar:{}", id(&n.name))) }
+    fn enter_enum_type(&self, n: &s::EnumType, c: &mut Vec<String>) { c.push(format!("+enum:{}", id(&n.name))) }
+    fn leave_enum_type(&self, n: &s::EnumType, c: &mut Vec<String>) { c.push(format!("-enum:{}", id(&n.name))) }
+    fn enter_enum_value(&self, n: &s::EnumValue, t: &s::EnumType, c: &mut Vec<String>) { c.push(format!("+evalue:{}@{}", id(&n.name), id(&t.name))) }
+    fn leave_enum_value(&self, n: &s::EnumValue, t: &s::EnumType, c: &mut Vec<String>) { c.push(format!("-evalue:{}@{}", id(&n.name), id(&t.name))) }
+}
+fn r_sdef(n: &s::SchemaDefinition) -> String {
+    format!("schema:{},{},{}", enc::r_opt_name(n.query.as_ref()), enc::r_opt_name(n.mutation.as_ref()), enc::r_opt_name(n.subscription.as_ref()))
+}
+
+fn svisit_case(name: &str, sdl: &str, out: &mut Out) {
+    let si = gen::SchemaInfo::new(name, sdl);
+    out.schema(&si);
+    let r = std::panic::catch_unwind(std::panic::AssertUnwindSafe(|| {
+        let mut lines = vec![];
+        SRec.visit_schema_document(&si.doc, &mut lines);
+        lines
+    })).ok();
+    out.push(json!({"op": "svisit", "src": sdl, "key": sdl, "impl": {"outcome": if r.is_some() {"ok"} else {"panic"}, "lines": r}}));
+}
+
 pub fn one_case(kind: &str, si: &gen::SchemaInfo, input: &J, out: &mut Out) {
     match kind {
         "trace" => trace_case(si, input.as_str().unwrap(), out),
+        "svisit" => svisit_case(&si.name, &si.text, out),
         _ => panic!("unknown kind {}", kind),
     }
 }
@@ -63,6 +113,18 @@ pub fn generate(kind: &str, thorough: bool, seed: u64, corpus: &str, out: &mut O
                 for t in corpus_docs(corpus, &si.name) { trace_case(&si, &t, out); }
                 for t in random_docs(&si, &mut rng, 150 * scale, 4) { trace_case(&si, &t, out); }
             }
+            for i in 0..(8 * scale) {
+                let si = gen::SchemaInfo::new(&format!("random{}", i), &gen::random_schema(&mut rng));
+                out.schema(&si);
+                for t in random_docs(&si, &mut rng, 40, 4) { trace_case(&si, &t, out); }
+            }
+        }
+        "svisit" => {
+            for (n, t) in schemas::pool() { svisit_case(n, &t, out); }
+            svisit_case("ambig", &format!("{}{}", schemas::PRELUDE, schemas::AMBIG), out);
+            svisit_case("with-extension", &format!("{}{}", schemas::PRELUDE, "type Query { a: Int } extend type Query { b: Int } enum E { X }"), out);
+            svisit_case("tiny", "scalar Int", out);
+            for i in 0..(60 * scale) { let t = gen::random_schema(&mut rng); svisit_case(&format!("random{}", i), &t, out); }
         }
         _ => panic!("unknown kind {}", kind),
     }
